@@ -18,6 +18,10 @@ def _context(g, n):
         if b.kind != "branch" or len(b.succ) < 2:
             continue
         arms = [(s, i) for s, i in b.succ if n.id in g.reach([s])]
+        if g.blocks[b.block].get("term") == "SwitchStmt" and 1 <= len(arms) < len(b.succ):
+            # several case labels may lead to the same statements (`case A: case B: …`, or a fall-through): all of them govern n
+            out.append((" | ".join(g.blocks[g.nodes[s].block].get("label") or "?" for s, _ in arms), "case"))
+            continue
         if len(arms) != 1:
             continue   # reachable from several arms (or none): b does not decide whether n runs
         s, idx = arms[0]
@@ -380,10 +384,48 @@ def rule_case_scalar(P):
                 R.paths += 1
                 nm = e["q"].split("::")[-1]
                 iid = "%s: %s%s under %s" % (base_name(f["q"]).replace(M, "")[:50], nm, e.get("sig", "")[:40], "/".join(sorted(fam)))
-                if sc <= fam:
+                if all(sc <= {fm} for fm in fam):
                     R.ok(iid, where(f, e["line"]))
                 else:
                     R.fail(iid, where(f, e["line"]), Finding(R.rule, f["file"], base_name(f["q"]), "%s%s@%s" % (nm, re.sub(r"\s+", "", e.get("sig", ""))[:30], "/".join(sorted(fam))),
                            "under %s the value passes through a %s scalar (%s%s): the conversion the case stands for is applied to an already narrowed value" % ("/".join(sorted(fam)), "/".join(sorted(sc)).lower(), nm, e.get("sig", "")), e["line"], inst=f["inst"]))
     R.require_floor(14, "value conversions under a type case")
+    return R
+
+
+def rule_copy_width(P):
+    """an edge value read for conversion into a terminal or another edge value is read at its own width: in copy_EV<EdgeOp<T>>::_compute (and any
+    function that reads an edge value with copyInto) a copyInto(S&) with S narrower than T inside T's family silently drops the high bits *before* the
+    target's range check (handleForValue → terminal overflow guard) can see them — unless S is the target's own scalar under `case edge_type::S`"""
+    R = RuleResult("dispatch.copy-width", "in every instantiation copy_EV<EdgeOp_plus|times<T>>::_compute, copyInto reads the source edge value into a scalar at least as wide as T within T's family, except under the edge_type case that names the narrower target type")
+    width = {"int": 1, "long": 2, "float": 1, "double": 2}
+    family = {"int": "I", "long": "I", "float": "R", "double": "R"}
+    n = 0
+    for f in sorted(P.fns.values(), key=lambda f: (f["file"], f["line"], f["inst"])):
+        m = re.search(r"copy_EV<MEDDLY::EdgeOp_(plus|times)<(\w+)>>::_compute$", re.sub(r"\s+", "", f["inst"]))
+        if not m or not f.get("cfg"):
+            continue
+        T = m.group(2)
+        g = Graph(f)
+        R.functions.add(f["inst"])
+        for k in g.nodes:
+            if k.kind != "call" or not k.ev["q"].endswith("edge_value::copyInto"):
+                continue
+            sm = re.search(r"\((?:_Bool|bool|int|long|float|double)", k.ev.get("sig", ""))
+            S = sm.group(0)[1:] if sm else None
+            if S in ("_Bool", "bool") or S is None or family[S] != family.get(T):
+                continue      # boolean test and cross-family conversions are the documented scalar conversions
+            n += 1
+            R.paths += 1
+            cases = " ".join(t for t, a in _context(g, k) if a == "case")
+            iid = "%s: copyInto(%s&) of a %s edge value under `%s`" % (f["inst"].replace(M, "")[:60], S, T, cases[:60])
+            target_is_S = re.search(r"edge_type::%s\b" % S.upper(), cases) is not None
+            if width[S] >= width[T] or target_is_S:
+                R.ok(iid, where(f, k.line))
+            else:
+                R.fail(iid, where(f, k.line), Finding(R.rule, f["file"], base_name(f["q"]), "copyInto(%s)@%s" % (S, re.sub(r"\s+", "", cases)[:50]),
+                       "a %s edge value is read into `%s` before it is converted under `%s`: the high bits are dropped before the target's range check sees them (2^32+5 is stored as 5 instead of raising VALUE_OVERFLOW)" % (T, S, cases), k.line, inst=f["inst"]))
+    if n < 4:
+        raise AnalysisBroken("dispatch.copy-width: expected ≥4 same-family copyInto reads in copy_EV<…>::_compute, found %d" % n)
+    R.require_floor(4, "same-family edge-value reads in copy_EV")
     return R
